@@ -154,9 +154,16 @@ pub fn jstr(s: &str) -> String {
     o
 }
 
+thread_local! {
+    static GUARD_DEPTH: std::cell::Cell<u32> = std::cell::Cell::new(0);
+}
+
 /// run a closure, turning a panic into Err(message)
 pub fn guarded<T>(f: impl FnOnce() -> T) -> Result<T, String> {
-    match std::panic::catch_unwind(std::panic::AssertUnwindSafe(f)) {
+    GUARD_DEPTH.with(|d| d.set(d.get() + 1));
+    let r = std::panic::catch_unwind(std::panic::AssertUnwindSafe(f));
+    GUARD_DEPTH.with(|d| d.set(d.get() - 1));
+    match r {
         Ok(v) => Ok(v),
         Err(p) => {
             let msg = if let Some(s) = p.downcast_ref::<&str>() {
@@ -171,8 +178,14 @@ pub fn guarded<T>(f: impl FnOnce() -> T) -> Result<T, String> {
     }
 }
 
+/// panics of the code under test (inside `guarded`) are data and stay silent; a panic of the harness
+/// itself is a tool error and is reported
 pub fn silence_panics() {
-    std::panic::set_hook(Box::new(|_| {}));
+    std::panic::set_hook(Box::new(|info| {
+        if GUARD_DEPTH.with(|d| d.get()) == 0 {
+            eprintln!("harness panic: {}", info);
+        }
+    }));
 }
 
 /// statistics a driver reports on stdout as one JSON line (picked up by bin/check for evidence)
